@@ -218,6 +218,8 @@ def x86_cases(f, mode, has_evex_sibling=True):
 
     base = full_operands(f, mode, ids=ids)
     out = [mk(base, "reg", opt)]
+    if f["prefix"] == "VEX" and has_evex_sibling and "vex3" in X.OPT:
+        out.append(mk(base, "reg-vex3", X.OPT["vex3"]))     # the other way of asking for the VEX encoding
     if opt or ids:
         out.append(mk(full_operands(f, mode, ids={j: v for j, v in ids.items() if f["operands"][j]["consecutive"]}), "reg-noopt", 0))
     kinds = collections.Counter(a[1] for o in f["operands"] for a in [_pick(o, False)] if a and a[0] == "reg")
